@@ -179,6 +179,26 @@ def gen(ctx):
                               ("StickerGet", [("sticker", v)]), ("AlbumArt", [("size", v)])):
             cases.append(typed_case(ident, None, wire(fields, b"x" if ident == "AlbumArt" else None)))
             dist["value-sweep"] = dist.get("value-sweep", 0) + 1
+    # values with the exact SHAPE (and byte length) of a valid one in which a multi-byte character takes the place of 2, 3 or 4 ASCII
+    # characters at every position — what a fixed-offset fast path slices through — or of one character (one byte longer)
+    def shaped(valid):
+        out = []
+        for i in range(len(valid)):
+            for ch in ("\u00e9", "\u65e5", "\U0001F600"):
+                w = len(ch.encode())
+                if i + w <= len(valid):
+                    out.append(valid[:i] + ch + valid[i + w:])
+            out.append(valid[:i] + "\u00e9" + valid[i + 1:])
+        return out
+    for valid, sweeps in (("2024-01-02T03:04:05Z", [("GetPlaylists", "Last-Modified", [("playlist", "p")]), ("Find", "Last-Modified", [("file", "f")])]),
+                          ("2024-01-02T03:04:05+01:00", [("ListAllIn", "Last-Modified", [("file", "f")])]),
+                          ("123.456", [("Queue", "duration", [("file", "f")]), ("Status", "elapsed", [("state", "stop"), ("repeat", "0"), ("random", "0"), ("consume", "0")])]),
+                          ("10.500-20.250", [("Queue", "Range", [("file", "f")])]),
+                          ("44100:16:2", [("CurrentSong", "Format", [("file", "f")])])):
+        for v in shaped(valid):
+            for ident, key, pre in sweeps:
+                cases.append(typed_case(ident, None, wire(pre + [(key, v)], None)))
+                dist["shape-sweep"] = dist.get("shape-sweep", 0) + 1
     for k in ODD_KEYS:
         for ident, params, fields in (("Queue", None, [("file", "a.flac"), (k, "x")]), ("ListAllIn", None, [("file", "a.flac"), (k, "x"), ("directory", "d")]),
                                       ("List", "n:Title+n:Album", [("Album", "x"), (k, "y"), ("Title", "z")]), ("List", "n:Title", [(k, "y")]),
